@@ -132,7 +132,7 @@ class Runner:
         return c
 
     def run(self, case: dict[str, Any], limits: dict[str, int | None], mode: str = "sync",
-            recursion_limit: int | None = None) -> Res:
+            recursion_limit: int | None = None, budget: int = STEP_BUDGET) -> Res:
         r = Res()
         self.ctx.ev()
         env = self.env_class(limits)(loader=self.DictLoader(case["partials"]))
@@ -147,7 +147,7 @@ class Runner:
         saved_rl = sys.getrecursionlimit()
         if recursion_limit is not None:
             sys.setrecursionlimit(recursion_limit)
-        self.sc.reset(STEP_BUDGET)
+        self.sc.reset(budget)
         try:
             if mode == "async":
                 r.out = drive(tpl.render_async(**data))
@@ -157,8 +157,9 @@ class Runner:
             r.status, r.err, r.msg = "err", type(e).__name__, str(e).split("\n")[0][:100]
         except StepBudgetExceeded:
             r.status, r.err = "steps", "StepBudgetExceeded"
-        except RecursionError:
+        except RecursionError as e:
             r.status, r.err = "rec", "RecursionError"
+            r.msg = _depth_at(e.__traceback__)
         except Exception as e:  # noqa: BLE001
             r.status, r.err, r.msg = "exc", type(e).__name__, str(e)[:100]
         finally:
@@ -167,6 +168,30 @@ class Runner:
                 sys.setrecursionlimit(saved_rl)
             MN.deactivate()
         return r
+
+
+def _depth_at(tb: Any) -> str:
+    """Where a RecursionError was raised, read from the frames of its traceback: the
+    largest context copy depth (length of the ``parent`` chain of a render context) and
+    the largest number of ``render_with_context`` activations nested on one context (each
+    of them extends the context's scope once), as 'copies=<n> scope=<n>'."""
+    depth_of: dict[int, int] = {}
+    nested: dict[int, int] = {}
+    while tb is not None:
+        fr = tb.tb_frame
+        c = fr.f_locals.get("context")
+        if c is not None and hasattr(c, "parent") and hasattr(c, "scope"):
+            k = id(c)
+            if k not in depth_of:
+                d, p = 0, c
+                while getattr(p, "parent", None) is not None and d < 100_000:
+                    p = p.parent
+                    d += 1
+                depth_of[k] = d
+            if fr.f_code.co_name.startswith("render_with_context"):
+                nested[k] = nested.get(k, 0) + 1
+        tb = tb.tb_next
+    return f"copies={max(depth_of.values(), default=0)} scope={max(nested.values(), default=0)}"
 
 
 # --------------------------------------------------------------------------- facts
@@ -519,7 +544,8 @@ def minimise(rn: Runner, prog: dict[str, Any], cls: str, ex: dict[str, Any]):
 
     def failing(p: dict[str, Any]) -> bool:
         c = G.emit(p)
-        c["marks"] = True
+        # the shrinker may delete marker characters: the cross-check no longer applies
+        c["marks"] = cls == "monitor:marker-count-mismatch"
         f = Facts(rn, c)
         if not f.ok:
             return False
@@ -537,7 +563,7 @@ def minimise(rn: Runner, prog: dict[str, Any], cls: str, ex: dict[str, Any]):
             res += judge_huge(rn, f, mode)
         for k, w, e in res:
             if key_class(k) == cls:
-                last["hit"] = ({"root": c["root"], "partials": c["partials"], "data": c["data"], "marks": True}, k, w, e)
+                last["hit"] = ({"root": c["root"], "partials": c["partials"], "data": c["data"], "marks": c["marks"]}, k, w, e)
                 return True
         return False
 
@@ -551,18 +577,15 @@ def minimise(rn: Runner, prog: dict[str, Any], cls: str, ex: dict[str, Any]):
 
 
 def shards(tier: str, seed: int) -> list[dict[str, Any]]:
-    k = 1 if tier == "quick" else 20
+    # (kind, number of shards, cases per shard); thorough = 20 x the quick volume
+    if tier == "quick":
+        plan = [("nest", 12, 64), ("ns", 6, 34), ("out", 6, 34), ("shared", 2, 90), ("cycle", 2, 260), ("chain", 2, 170)]
+    else:
+        plan = [("nest", 24, 640), ("ns", 6, 680), ("out", 6, 680), ("shared", 4, 900), ("cycle", 4, 2600), ("chain", 4, 1700)]
     specs: list[dict[str, Any]] = []
-    n = 12
-    for prof, per in (("nest", 64), ("ns", 34), ("out", 34)):
-        for i in range(n if prof == "nest" else n // 2):
-            specs.append({"kind": prof, "i": i, "n": n, "per": per * k})
-    for i in range(2 if tier == "quick" else 8):
-        specs.append({"kind": "shared", "i": i, "n": 2, "per": (90 * k) // (1 if tier == "quick" else 4)})
-    for i in range(2 if tier == "quick" else 8):
-        specs.append({"kind": "cycle", "i": i, "n": 2, "per": (260 * k) // (1 if tier == "quick" else 4)})
-    for i in range(2 if tier == "quick" else 8):
-        specs.append({"kind": "chain", "i": i, "n": 2, "per": (170 * k) // (1 if tier == "quick" else 4)})
+    for kind, n, per in plan:
+        for i in range(n):
+            specs.append({"kind": kind, "i": i, "n": n, "per": per})
     specs.append({"kind": "zero"})
     return specs
 
@@ -646,6 +669,7 @@ def _shared(rn: Runner, spec: dict[str, Any]) -> None:
 
 OK_CYCLE_ERRORS = ("ContextDepthError", "TemplateInheritanceError")
 PY_RECURSION_LIMIT = 1000
+CYCLE_STEP_BUDGET = 600_000
 
 
 def judge_cycle(rn: Runner, case: dict[str, Any], D: int | None, mode: str,
@@ -653,7 +677,7 @@ def judge_cycle(rn: Runner, case: dict[str, Any], D: int | None, mode: str,
     """Termination of a cyclic template graph.  Run on the untouched engine classes
     under CPython's default recursion limit (1000)."""
     limits: dict[str, int | None] = {} if D is None else {"depth": D}
-    r = rn.run(case, limits, mode, recursion_limit=PY_RECURSION_LIMIT)
+    r = rn.run(case, limits, mode, recursion_limit=PY_RECURSION_LIMIT, budget=CYCLE_STEP_BUDGET)
     ctx = rn.ctx
     fam = G.cycle_family(case)
     ex = {"limit_kind": "depth-cycle", "limit": D, "mode": mode, "cycle": case.get("cycle")}
@@ -667,11 +691,18 @@ def judge_cycle(rn: Runner, case: dict[str, Any], D: int | None, mode: str,
             ctx.mx("max:cycle_steps", r.steps)
             ctx.nt(case["root"], sorted(case["partials"].items()), "cycle", D, mode)
     elif r.status == "rec":
-        out.append((f"depth:RecursionError@{fam}",
-                    f"cyclic template graph ended with RecursionError (recursion limit {PY_RECURSION_LIMIT}) "
-                    f"under context_depth_limit {eff}", ex))
+        mm = re.fullmatch(r"copies=(\d+) scope=(\d+)", r.msg)
+        copies, scope = (int(mm.group(1)), int(mm.group(2))) if mm else (0, 0)
+        if copies > eff + 1 or scope > eff + 1:
+            out.append((f"depth:limit-not-enforced:RecursionError@{fam}",
+                        f"cyclic template graph ended with RecursionError with {copies} nested context copies and "
+                        f"{scope} nested extensions of one context under context_depth_limit {eff}", ex))
+        else:
+            out.append((f"depth:RecursionError@{fam}",
+                        f"cyclic template graph ended with RecursionError (recursion limit {PY_RECURSION_LIMIT}) "
+                        f"under context_depth_limit {eff}, only {copies} nested context copies / {scope} nested extensions of one context deep", ex))
     elif r.status == "steps":
-        out.append((f"depth:step-budget-exceeded@{fam}", f"cyclic template graph still running after {STEP_BUDGET} function activations", ex))
+        out.append((f"depth:step-budget-exceeded@{fam}", f"cyclic template graph still running after {CYCLE_STEP_BUDGET} function activations", ex))
     elif r.status == "ok":
         out.append((f"depth:cycle-rendered-without-error@{fam}", f"cyclic template graph rendered {r.out!r:.80} without a depth / inheritance error", ex))
     elif r.status in ("err", "parse"):
